@@ -24,7 +24,9 @@ over the vocabulary of coq/C11/Prims.v:
     add_inline_frame = what the harness's recording FrameSymbolizer records);
   * field types come from the struct declarations in types.rs / mod.rs (parsed here), method calls are resolved on the
     receiver's type (RangeMap::get = C08 rm_get, HashMap::get = assoc_last, slice::binary_search_by_key = bsearch_by, ...).
-Anything outside the subset aborts with the offending source text.  coq/C11/SrcTie.v proves every compiled function equal
+Anything outside the subset is reported with the offending source text and the script exits with status 1 (the runner records a
+broken tie); the output file is still written, with the function that could not be compiled replaced by a definition marked FALLBACK
+that is the hand-written model, so that the model driver keeps building and the correspondence run goes on.  coq/C11/SrcTie.v proves every compiled function equal
 to the hand-written model of C11/Model.v for all arguments."""
 import os
 import re
@@ -33,9 +35,12 @@ import sys
 repo, outdir = sys.argv[1], sys.argv[2]
 
 
+class Abort(Exception):
+    pass
+
+
 def die(msg):
-    sys.stderr.write("c11_compile.py: " + msg + "\n")
-    sys.exit(1)
+    raise Abort(msg)
 
 
 def strip_comments(s):
@@ -413,9 +418,13 @@ def struct_decl(src, name):
     return out
 
 
-ty_src = read("breakpad-symbols/src/sym_file/types.rs")
-mod_src = read("breakpad-symbols/src/sym_file/mod.rs")
-STRUCTS = {n: struct_decl(ty_src, n) for n in ("Function", "Inlinee", "PublicSymbol", "SourceLine", "StackInfoWin", "SymbolFile")}
+try:
+    ty_src = read("breakpad-symbols/src/sym_file/types.rs")
+    mod_src = read("breakpad-symbols/src/sym_file/mod.rs")
+    STRUCTS = {n: struct_decl(ty_src, n) for n in ("Function", "Inlinee", "PublicSymbol", "SourceLine", "StackInfoWin", "SymbolFile")}
+except Abort as e:
+    sys.stderr.write("c11_compile.py: %s\n" % e)
+    sys.exit(1)
 # the Gallina records of C11/Model.v: projection and Coq type per Rust struct
 PROJ = {
     "Function": {"address": "fn_addr", "size": "fn_size", "parameter_size": "fn_psize", "name": "fn_name", "lines": "fn_lines",
@@ -442,10 +451,12 @@ EXPECT = {
                    "functions": ("rm", ("S", "Function")), "win_stack_framedata_info": ("rm", ("S", "StackInfoWin")),
                    "win_stack_fpo_info": ("rm", ("S", "StackInfoWin"))},
 }
+PROBLEMS = []          # what could not be compiled; reported at the end (exit status 1)
 for sn, fs in EXPECT.items():
     for f, t in fs.items():
         if STRUCTS[sn].get(f) != t:
-            die("struct %s: field `%s` is declared %r, the model's record assumes %r" % (sn, f, STRUCTS[sn].get(f), t))
+            PROBLEMS.append("struct %s: field `%s` is declared %r, the model's record assumes %r" % (sn, f, STRUCTS[sn].get(f), t))
+            STRUCTS[sn][f] = t
 
 
 SETTER = {("Function", "lines"): "func_set_lines", ("Function", "inlinees"): "func_set_inlinees"}
@@ -1220,67 +1231,109 @@ SIGS = {
     ("SymbolFile", "find_nearest_public"): ("src_find_nearest_public p", ("opt", ("S", "PublicSymbol")), ["u64"]),
 }
 
+# A function that cannot be compiled (source outside the subset, changed signature) is REPORTED (exit status 1: the runner
+# records a broken tie) and replaced in the output by a definition that is the hand-written model, marked FALLBACK, so that the
+# model driver (C11/Driver.v uses src_fill_symbol and src_finish_function) still builds and the correspondence run with the
+# hand-written model goes on; C11/SrcTie.v is then meaningless for that function (and usually no longer compiles).
+FALLBACK = {
+    "func_memory_range": "Definition src_func_memory_range (p : profile) (v_self : func) : outcome (option range) :=\n"
+                         "  Ret (mk_range (fn_addr v_self) (fn_size v_self)).\n",
+    "win_memory_range": "Definition src_win_memory_range (p : profile) (v_self : win_rec) : outcome (option range) :=\n"
+                        "  Ret (win_range v_self).\n",
+    "get_inlinee_at_depth": "Definition src_get_inlinee_at_depth (p : profile) (v_self : func) (v_depth v_addr : Z) : outcome (option (Z * Z * Z * Z)) :=\n"
+                            "  do r <- get_inlinee_at_depth (fn_inls v_self) v_depth v_addr;\n"
+                            "  Ret (option_map (fun e => (i_cfile e, i_cline e, i_addr e, i_origin e)) r).\n",
+    "get_outermost_sourceloc": "Definition src_get_outermost_sourceloc (p : profile) (v_self : func) (v_addr : Z) : outcome (option (Z * Z * Z * option Z)) :=\n"
+                               "  do r <- get_outermost_sourceloc v_self v_addr;\n"
+                               "  Ret (option_map (fun x : Z * Z * Z * option inl_rec => let '(fid, line, a, org) := x in (fid, line, a, option_map i_origin org)) r).\n",
+    "get_innermost_sourceloc": "Definition src_get_innermost_sourceloc (p : profile) (v_self : func) (v_addr : Z) : outcome (option (Z * Z * Z)) :=\n"
+                               "  Ret (option_map (fun l => (l_file l, l_line l, l_addr l)) (rm_get (fn_lines v_self) v_addr)).\n",
+    "find_nearest_public": "Definition src_find_nearest_public (p : profile) (v_self : symtab) (v_addr : Z) : outcome (option pub_rec) :=\n"
+                           "  Ret (find_nearest_public (st_publics v_self) v_addr).\n",
+    "fill_symbol": "Definition src_fill_symbol (p : profile) (fuel : nat) (v_self : symtab) (mbase instr : Z) : outcome sym_out :=\n"
+                   "  fill_symbol p v_self mbase instr.\n",
+    "finish_function": "Definition src_finish_function (p : profile) (v_functions : list (range * func)) (v_cur : func) (v_lines : list line_rec)\n"
+                       "    (v_inlinees : list inl_rec) : outcome (list (range * func)) :=\n"
+                       "  do r <- finish_func (mk_fraw (fn_addr v_cur) (fn_size v_cur) (fn_psize v_cur) (fn_name v_cur) v_lines v_inlinees);\n"
+                       "  Ret (v_functions ++ match r with Some e => [e] | None => [] end).\n",
+}
 parts = []
-parts.append(compile_fn(
+
+
+def attempt(name, thunk):
+    try:
+        parts.append(thunk())
+    except Abort as e:
+        PROBLEMS.append(str(e))
+        parts.append("(* FALLBACK: not compiled from the source (%s) - the hand-written model *)\n%s"
+                     % (str(e).replace("*)", "* )").replace("(*", "( *")[:300], FALLBACK[name]))
+
+
+attempt("func_memory_range", lambda: compile_fn(
     "func_memory_range", "Function::memory_range (types.rs)", ty_src,
     r"impl Function \{\s*pub fn memory_range\(", "Function", [], "opt", ("opt", "range"), SIGS,
     "impl Function { pub fn memory_range(&self) -> Option<Range<u64>>"))
-parts.append(compile_fn(
+attempt("win_memory_range", lambda: compile_fn(
     "win_memory_range", "StackInfoWin::memory_range (types.rs)", ty_src,
     r"impl StackInfoWin \{\s*pub fn memory_range\(", "StackInfoWin", [], "opt", ("opt", "range"), SIGS,
     "impl StackInfoWin { pub fn memory_range(&self) -> Option<Range<u64>>"))
-parts.append(compile_fn(
+attempt("get_inlinee_at_depth", lambda: compile_fn(
     "get_inlinee_at_depth", "Function::get_inlinee_at_depth (types.rs)", ty_src,
     r"pub fn get_inlinee_at_depth\(", "Function", [("depth", "u32"), ("addr", "u64")], "opt", SIGS[("Function", "get_inlinee_at_depth")][1], SIGS,
     "pub fn get_inlinee_at_depth(&self, depth: u32, addr: u64) -> Option<(u32, u32, u64, u32)>"))
-parts.append(compile_fn(
+attempt("get_outermost_sourceloc", lambda: compile_fn(
     "get_outermost_sourceloc", "Function::get_outermost_sourceloc (types.rs)", ty_src,
     r"pub fn get_outermost_sourceloc\(", "Function", [("addr", "u64")], "opt", SIGS[("Function", "get_outermost_sourceloc")][1], SIGS,
     "pub fn get_outermost_sourceloc(&self, addr: u64) -> Option<(u32, u32, u64, Option<u32>)>"))
-parts.append(compile_fn(
+attempt("get_innermost_sourceloc", lambda: compile_fn(
     "get_innermost_sourceloc", "Function::get_innermost_sourceloc (types.rs)", ty_src,
     r"pub fn get_innermost_sourceloc\(", "Function", [("addr", "u64")], "opt", SIGS[("Function", "get_innermost_sourceloc")][1], SIGS,
     "pub fn get_innermost_sourceloc(&self, addr: u64) -> Option<(u32, u32, u64)>"))
-parts.append(compile_fn(
+attempt("find_nearest_public", lambda: compile_fn(
     "find_nearest_public", "SymbolFile::find_nearest_public (mod.rs)", mod_src,
     r"pub fn find_nearest_public\(", "SymbolFile", [("addr", "u64")], "opt", SIGS[("SymbolFile", "find_nearest_public")][1], SIGS,
     "pub fn find_nearest_public(&self, addr: u64) -> Option<&PublicSymbol>"))
-parts.append(compile_fn(
+attempt("fill_symbol", lambda: compile_fn(
     "fill_symbol", "SymbolFile::fill_symbol (mod.rs)", mod_src,
     r"pub fn fill_symbol\(&self, module", "SymbolFile", [("module", "module"), ("frame", "frame")], "unit", "frame", SIGS,
     "pub fn fill_symbol(&self, module: &dyn Module, frame: &mut dyn FrameSymbolizer)"))
 
 # ---- parser.rs: the Line::Function arm of finish_item (the rest of finish_item is pinned by c11_symbolize.py)
-pa_src = read("breakpad-symbols/src/sym_file/parser.rs")
 FI = "SymbolParser::finish_item, Line::Function arm (parser.rs)"
-_, fi_body = fn_source(pa_src, r"fn finish_item\(&mut self, item: Line\) \{", FI)
 ARM = "Line::Function(mut cur, lines, mut inlinees) =>"
-fi_norm = re.sub(r"\s+", " ", fi_body)
-if not fi_norm.startswith("{ match item { " + ARM + " {"):
-    die("%s: finish_item no longer starts with `match item { %s {`: %s" % (FI, ARM, fi_norm[:120]))
-i0 = fi_body.index("{", fi_body.index("=>"))
-d, j0 = 0, i0
-while True:
-    if fi_body[j0] == "{":
-        d += 1
-    elif fi_body[j0] == "}":
-        d -= 1
-        if d == 0:
-            break
-    j0 += 1
-pp = P(tokenize(fi_body[i0:j0 + 1], FI), FI)
-arm_block = pp.block()
-if pp.peek()[0] != "eof":
-    pp.fail("trailing source")
-m = re.search(r"functions: Vec<\(Range<u64>, Function\)>,", pa_src)
-if not m:
-    die("SymbolParser.functions is no longer Vec<(Range<u64>, Function)>")
 T_FUNCS = ("vec", ("tup", ["range", ("S", "Function")]))
 SIGS[("Function", "memory_range")] = ("src_func_memory_range p", ("opt", "range"), [])
-parts.append(compile_fn(
-    "finish_function", FI, None, None, "SymbolParser",
-    [("\0functions", T_FUNCS), ("cur", ("S", "Function")), ("lines", ("vec", ("S", "SourceLine"))), ("inlinees", ("vec", ("S", "Inlinee")))],
-    "unit", T_FUNCS, SIGS, None, body=arm_block, mut_params=("\0functions", "cur", "inlinees"), outputs="v_functions"))
+
+
+def finish_arm():
+    pa_src = read("breakpad-symbols/src/sym_file/parser.rs")
+    _, fi_body = fn_source(pa_src, r"fn finish_item\(&mut self, item: Line\) \{", FI)
+    fi_norm = re.sub(r"\s+", " ", fi_body)
+    if not fi_norm.startswith("{ match item { " + ARM + " {"):
+        die("%s: finish_item no longer starts with `match item { %s {`: %s" % (FI, ARM, fi_norm[:120]))
+    i0 = fi_body.index("{", fi_body.index("=>"))
+    d, j0 = 0, i0
+    while True:
+        if fi_body[j0] == "{":
+            d += 1
+        elif fi_body[j0] == "}":
+            d -= 1
+            if d == 0:
+                break
+        j0 += 1
+    pp = P(tokenize(fi_body[i0:j0 + 1], FI), FI)
+    arm_block = pp.block()
+    if pp.peek()[0] != "eof":
+        pp.fail("trailing source")
+    if not re.search(r"functions: Vec<\(Range<u64>, Function\)>,", pa_src):
+        die("SymbolParser.functions is no longer Vec<(Range<u64>, Function)>")
+    return compile_fn(
+        "finish_function", FI, None, None, "SymbolParser",
+        [("\0functions", T_FUNCS), ("cur", ("S", "Function")), ("lines", ("vec", ("S", "SourceLine"))), ("inlinees", ("vec", ("S", "Inlinee")))],
+        "unit", T_FUNCS, SIGS, None, body=arm_block, mut_params=("\0functions", "cur", "inlinees"), outputs="v_functions")
+
+
+attempt("finish_function", finish_arm)
 
 out = """(* GENERATED by translate/c11_compile.py from breakpad-symbols/src/sym_file/{types,mod}.rs - do not edit.
    The bodies of Function::{memory_range, get_inlinee_at_depth, get_outermost_sourceloc, get_innermost_sourceloc},
@@ -1299,3 +1352,6 @@ except OSError:
     same = False
 if not same:
     open(path, "w").write(out)
+if PROBLEMS:
+    sys.stderr.write("".join("c11_compile.py: %s\n" % x for x in PROBLEMS))
+    sys.exit(1)
